@@ -283,6 +283,17 @@ def param_space_packages(rng, n):
     g = {}
     exec(src, g)
     out.append(("exec:no-import-path", g["TopX"]))
+    # slices of a concatenation that take all of one signal and part of its neighbour — by hand, and as the shares of an instance array whose
+    # elements straddle the parts (seed C11-r9-1: a resolver that leaves `a[0:4]` of a four-bit `a` standing exports what re-elaboration
+    # of the imported module collapses to `a`)
+    wide = h.Module(name="Wide6"); wide.q = h.Input(width=6)
+    st = h.Module(name="Straddle")
+    st.a, st.b, st.c = h.Signal(width=4), h.Signal(width=4), h.Signal(width=4)
+    st.i0 = wide(q=h.Concat(st.a, st.b)[0:6])
+    st.i1 = wide(q=h.Concat(st.a, st.b)[2:8])
+    st.arr = 2 * wide(q=h.Concat(st.a, st.b, st.c))
+    st.i2 = wide(q=h.Concat(st.a[0:4], st.b[0:2]))
+    out.append(("slices:all-of-one-part-and-some-of-the-next", st))
     # a module whose qualified name is also the namespace path of another (`lib.amp` defined in lib/__init__.py, `lib.amp.Core` in
     # lib/amp.py; here: `a` under `a.b`): from_proto files modules in a tree of namespaces, where a name is a module or a namespace
     src = ("import hdl21 as h\nA = h.Module(name='a'); A.add(h.Port(name='p'))\n"
